@@ -2,9 +2,9 @@
 from . import common as C
 
 MANIFEST = dict(
-   technique="Lean 4 proof of one composition law per container (slice, array, tuple, map, record, set, object, struct, union, xor, intersection, discriminated union, lazy) over ABSTRACT member schemas (every member environment, so any nesting depth and nil-accepting members), for today's code and the code after the pending patches; differential correspondence of the container model against the real types on generated nestings, each container judged against its own members' recorded ParseAny answers",
-   text="Theorems c02_slice/array/tuple/map/record/set/object/struct/union/xor/du: the model of each container validator (transcribed from types/*.go, including the engine nil path of internal/engine) accepts iff shape, size checks, unknown-key policy and the members' own verdicts say so, for all member environments. c02_inter_partial and c02_lazy_partial exclude, with witness theorems (c02_inter_full_false, c02_lazy_full_false, c02_lazy_nil_false, c02_union_full_false, c02_nilslice_false, c02_object_catchall_false), the regions where today's code breaks the law. The hand-written model is tied to /repo by generated nestings (depth <= 4 quick, <= 6 thorough) with valid instances, every single-location corruption, wrong-shape containers and nil-likes; the harness records each member's own ParseAny answer on every part of the input and Lean evaluates model and law on that table.",
-   note="Trusted: Lean kernel; axioms propext/Classical.choice/Quot.sound only; the Go harness, token codec and comparer. The container model is a hand transcription validated on generated cases, not for all inputs; Go representations outside the generated set (struct inputs to Object, map inputs to Struct, numeric-string record keys, Default/Prefault/Transform on the container itself, struct Partial, loose records over enum keys) are not modelled. Result values are not compared (verdicts only). Known deviations of today's code are listed in known-findings.txt (nil-like inputs never reach union/xor/intersection/lazy members; typed nil slices/maps rejected; catchall ignored in strip mode; intersection drops one-sided unrecognized_keys; lazy never asks targets whose Parse result type is unsupported).",
+   technique="Lean 4 proof of one composition law per container (slice, array, tuple, map, record, set, object, struct, union, xor, intersection, discriminated union, lazy) over ABSTRACT member schemas (every member environment, so any nesting depth and nil-accepting members), for today's code and the code after the pending patches; differential correspondence of the container model against the real types on generated nestings whose members are of every kind a constructor type-checks (built-in schemas, transforms, pipes, refined / overwriting / coercing schemas, foreign types offering only Parse, exactly core.ZodSchema or exactly core.ZodType[any], also wrapped around generated composites), each container judged against its own members' recorded answers (ParseAny, else Parse)",
+   text="Theorems c02_slice/array/tuple/map/record/set/object/struct/union/xor/du: the model of each container validator (transcribed from types/*.go, including the engine nil path of internal/engine) accepts iff shape, size checks, unknown-key policy and the members' own verdicts say so, for all member environments. c02_inter_partial and c02_lazy_partial exclude, with witness theorems (c02_inter_full_false, c02_lazy_full_false, c02_lazy_nil_false, c02_union_full_false, c02_nilslice_false, c02_object_catchall_false, c02_unasked_member_false, c02_array_rest_dropped), the regions where today's code breaks the law; c02_slice_seen / c02_callable_partial state the law over what a container SEES of its members (Cont.seen: a member the code has no entry point on is never asked). The hand-written model is tied to /repo by generated nestings (depth <= 4 quick, <= 6 thorough) with valid instances, every single-location corruption, wrong-shape containers and nil-likes; the harness records each member's own ParseAny answer on every part of the input and Lean evaluates model and law on that table.",
+   note="Trusted: Lean kernel; axioms propext/Classical.choice/Quot.sound only; the Go harness, token codec and comparer. The container model is a hand transcription validated on generated cases, not for all inputs; Go representations outside the generated set (struct inputs to Object, map inputs to Struct, numeric-string record keys, Default/Prefault/Transform on the container itself, struct Partial, loose records over enum keys) are not modelled. Result values are not compared (verdicts only). Known deviations of today's code are listed in known-findings.txt (nil-like inputs never reach union/xor/intersection/lazy members; typed nil slices/maps rejected; catchall ignored in strip mode; intersection drops one-sided unrecognized_keys; lazy never asks targets whose Parse result type is unsupported; Slice/Array never ask a member that is not a core.ZodSchema (pipes were, until ff6dceb); Map/Set/Record/Struct never ask a member without a method named Parse). Which members a container can call is mirrored in the harness from the type assertions / reflective look-ups of types/*.go (cx.Asked). Record key schemas that rewrite the key are not generated.",
    design="DESIGN.md §5 C02; notes/C02.md")
 
 MODULES = ["Gozod.Proofs.C02"]
@@ -14,6 +14,7 @@ THEOREMS = ["Gozod.C02." + t for t in [
     "c02_nil_path", "engine_nil", "engine_nonNil",
     "c02_union_full_false", "c02_inter_full_false", "c02_lazy_full_false", "c02_lazy_nil_false",
     "c02_nilslice_false", "c02_object_catchall_false",
+    "seen_nil", "acc_seen", "c02_slice_seen", "c02_callable_partial", "c02_unasked_member_false", "c02_array_rest_dropped",
 ]]
 
 def split(line):
@@ -50,12 +51,15 @@ def run(res):
     ops = [o + " reason=" + reason_of(m) for o, m in zip(ops, model)]
     C.decide(res, "C02", (ops, impl, model, stats), key, "C02/containers", split=split, describe=describe)
     res.coverage["rule"] = ("per container kind N random schemas (26 quick / 220 thorough) of nesting depth 1..4 (thorough 1..6), members drawn "
-        "from 20 primitive schemas incl. Nil/Any/Unknown/Never/optional/nilable/defaulted/prefaulted/exact-optional and from nested composites; "
+        "from 20 primitive schemas incl. Nil/Any/Unknown/Never/optional/nilable/defaulted/prefaulted/exact-optional, from nested composites, and (22% of member "
+        "positions) from the other member kinds the position type-checks: transform, pipe, refine, overwrite, coerce, Parse-only / ZodSchema-only / ZodType[any]-only "
+        "foreign types around leaves and around generated composites (member-kind histogram: stats member:*); "
         "per schema: 2 valid instances, every top-level single-location corruption, 3 deep corruptions, a pointer to the instance, 38 wrong-shape / "
         "nil-like Go values, and the members' own accepted values. distinct = distinct (schema description, input, member verdict table) lines. "
         "cfg (which patched behaviours the tree shows) = " + str(stats.get("cfg")))
     res.assumptions += [
-        "each member's recorded ParseAny answer is what the container obtains when it asks the member (members are deterministic and side-effect free)",
+        "each member's recorded own answer (ParseAny, else Parse) is what the container obtains when it asks the member (members are deterministic and side-effect free)",
+        "which members a container's code can call at all is mirrored from types/*.go in harness/cx/members.go:Asked (a drift shows as impl != model)",
         "tuple RequiredCount is recomputed by the harness from the members' Optional flags (the field is not exported)",
         "Go representations outside the generated set are not modelled (see level_note)",
     ]
